@@ -148,8 +148,8 @@ static void* th_main(void* a) {
   for (int i = t->keep; i < t->nblocks; i++) { mi_free(t->out[i]); t->out[i] = NULL; }
   return NULL;
 }
-static const char* wl_names[] = { "small", "large", "huge", "aligned-huge", "threads8", "threads40", "heaps", "realloc", "mixed", "timed", "staggered", "arenas", "hugepages", "threads-live" };
-#define NWL 14
+static const char* wl_names[] = { "small", "large", "huge", "aligned-huge", "threads8", "threads40", "heaps", "realloc", "mixed", "timed", "staggered", "arenas", "hugepages", "threads-live", "strings" };
+#define NWL 15
 #define NWL_FOOT 11   /* (the arenas workload registers new arenas, which stay by design: fault mode only) */
 static pthread_t g_tl_thread; static volatile int g_tl_ready, g_tl_go, g_tl_running;
 static void* tl_short(void* a) { void* p = mi_malloc(100); void* q = mi_malloc(8 * KiB); pthread_barrier_wait((pthread_barrier_t*)a); mi_free(p); mi_free(q); return NULL; }
@@ -251,6 +251,23 @@ static int run_workload(int w) {
       while (!__atomic_load_n(&g_tl_ready, __ATOMIC_ACQUIRE)) sched_yield();
       g_tl_running = 1;
       return 0;
+    }
+    case 14: { /* strings: the duplicating entry points (mi_strdup, mi_strndup, mi_heap_strdup, mi_heap_strndup) need fresh memory of three kinds
+                  (own huge segment, large page, medium page); a refusal must come back as NULL, never as a store relative to it */
+      static char src[17 * MiB + 1];
+      static const size_t lens[] = { 17 * MiB, 3 * MiB, 100 * KiB, 48 };
+      mi_heap_t* h = mi_heap_get_default();
+      for (int v = 0; v < 4; v++) for (int e = 0; e < 4; e++) {
+        if (v == 0 && (e == 1 || e == 2)) continue;   /* (the 17 MiB string: mi_strdup and mi_heap_strndup only, to keep the case short) */
+        size_t n = lens[v]; memset(src, 'a' + e, n); src[n] = 0;
+        size_t want = (e & 1) ? n - 7 : n;     /* (the strndup forms cut the string) */
+        char* q = (e == 0 ? mi_strdup(src) : e == 1 ? mi_strndup(src, want) : e == 2 ? mi_heap_strdup(h, src) : mi_heap_strndup(h, src, want));
+        if (q == NULL) { if (g_lenient) { VF_INC(counters[1]); continue; } VIOL("null-result", "string duplication of %zu bytes (entry %d)", n, e); return -1; }
+        if (strlen(q) != want || memcmp(q, src, want) != 0) { VIOL("contents-changed", "string duplicate of %zu bytes (entry %d) differs from its source", want, e); return -1; }
+        if (vf_model_alloc(q, want + 1, 0, 0, 0, 0, "mi_strdup") < 0) return -1;
+        if (v < 2 && (e & 1)) { if (w_free_idx(vf_nlive - 1)) return -1; }   /* (keeps the footprint of the case small) */
+      }
+      return w_free_all();
     }
     case 12: { /* hugepages: mi_reserve_huge_os_pages_at(3 x 1 GiB) -- the modelled OS grants such mappings for the duration of the call (ordinary untouched memory) --
                   then 40 blocks of 30 MiB (more than one of the three pages), only their first and last byte touched */
@@ -510,8 +527,8 @@ static void purge_case(long k) {
  * ============================================================================================== */
 #define NPLAN 6   /* 0: single failure at k; 1..4: persistent failure from k of mmap / mprotect / madvise / munmap; 5: persistent, all kinds */
 static const char* plan_names[] = { "single", "persist-mmap", "persist-mprotect", "persist-madvise", "persist-munmap", "persist-all" };
-static int g_wl_fault[] = { 0, 1, 2, 3, 4, 6, 7, 8, 11, 12 };
-#define NWLF 10
+static int g_wl_fault[] = { 0, 1, 2, 3, 4, 6, 7, 8, 11, 12, 14 };   /* (new workloads go at the end: replay files carry case numbers) */
+#define NWLF 11
 typedef struct fcase_s { int w; int plan; long k; long k2; } fcase_t;
 static fcase_t* g_fcases; static long g_nfcases;
 static long g_dry_calls[NWL];
@@ -663,7 +680,7 @@ int main(int argc, char** argv) {
       }
     }
     ncases = g_nfcases; fn = fault_case;
-    vf_sample("OS calls per workload (dry run): small=%ld large=%ld huge=%ld aligned-huge=%ld threads8=%ld heaps=%ld realloc=%ld mixed=%ld arenas=%ld hugepages=%ld", shared_dry[0], shared_dry[1], shared_dry[2], shared_dry[3], shared_dry[4], shared_dry[6], shared_dry[7], shared_dry[8], shared_dry[11], shared_dry[12]);
+    vf_sample("OS calls per workload (dry run): small=%ld large=%ld huge=%ld aligned-huge=%ld threads8=%ld heaps=%ld realloc=%ld mixed=%ld arenas=%ld hugepages=%ld strings=%ld", shared_dry[0], shared_dry[1], shared_dry[2], shared_dry[3], shared_dry[4], shared_dry[6], shared_dry[7], shared_dry[8], shared_dry[11], shared_dry[12], shared_dry[14]);
   }
   else { fprintf(stderr, "unknown mode %s\n", g_mode); return 2; }
   if (replay) {
